@@ -23,6 +23,10 @@ CHECKS = {
             rapid("prop", "TestProp",
                   {"checks": 96, "shards": 12, "timeout": 600, "shrinktime": "30s"},
                   {"checks": 3200, "shards": 16, "timeout": 3000, "shrinktime": "60s"}, race=True),
+            rapid("ocspexpiry", "TestOCSPExpiry",
+                  {"checks": 48, "shards": 12, "timeout": 600, "shrinktime": "20s"},
+                  {"checks": 640, "shards": 16, "timeout": 3000, "shrinktime": "60s"}, race=True,
+                  replay_test="TestReplayOCSPExpiry", seed_offset=3),
         ],
     },
     "C15": {
